@@ -17,7 +17,7 @@ import (
 )
 
 func TestMain(m *testing.M) {
-	vh.Rule("rapid: same (type,width,value) domain as C04; for each value the library's DataType.Bytes must equal the independent reference encoding byte for byte (numeric: same sign byte and same magnitude after stripping leading zero bytes) and DataType.GoValue of the reference encoding must give back the value; fixed vectors from the ASE documentation (type minima/maxima, epochs); exhaustive: every day of years 1..9999 for the calendar helpers DurationFromDateTime / TimeToMicroseconds / MicrosecondsToTime against own civil-date arithmetic (Hinnant), inverse and additivity. Non-trivial: the reference encoding is not all-zero bytes; distinct by (type,width,value)")
+	vh.Rule("rapid: same (type,width,value) domain as C04; for each value the library's DataType.Bytes must equal the independent reference encoding byte for byte (numeric: same sign byte and same magnitude after stripping leading zero bytes) and DataType.GoValue of the reference encoding must give back the value (classic temporal types: to within the millisecond resolution of the decoded time); fixed vectors from the ASE documentation (type minima/maxima, epochs); exhaustive: every day of years 1..9999 for the calendar helpers DurationFromDateTime / TimeToMicroseconds / MicrosecondsToTime against own civil-date arithmetic (Hinnant), inverse and additivity. Non-trivial: the reference encoding is not all-zero bytes; distinct by (type,width,value)")
 	vh.Assume("the reference codec is my reading of TDS 5.0 (little endian as announced in the login record), anchored by documented vectors; smalldatetime values are exact minutes here (the rounding rule for seconds is not part of the layout)")
 	vh.Main(m, "C05")
 }
@@ -94,7 +94,7 @@ func runVal(c valCase) (f *vh.Failure) {
 	if v.T == rc.TDateTimeN && v.W == 4 || v.T == rc.TShortDate {
 		exact.JitNs = 0
 	}
-	if err := valgen.Match(exact, got); err != nil {
+	if err := valgen.MatchMillis(exact, got); err != nil {
 		return vh.Failf(class(v), "%s: server bytes % x: %v", dt, head(ref), err)
 	}
 	vh.Label(valgen.Labels(v)...)
@@ -314,4 +314,31 @@ func TestCalendarRandom(t *testing.T) {
 		return dayCase{Day: rapid.IntRange(valgen.MinDay1900, valgen.MaxDay1900).Draw(rt, "day"), UsOD: rapid.Int64Range(0, rc.UsPerDay-1).Draw(rt, "us")}
 	}
 	vh.Check(t, "TestCalendarRandom", vh.N(100000, 1000000), gen, runDay)
+}
+
+// every 1/300 s tick of a day in both directions against the reference codec
+func TestEveryTickWire(t *testing.T) {
+	e := vh.NewEnum(t, "TestEveryTickWire", runVal)
+	if e.Skip() {
+		return
+	}
+	stride := 1
+	if !vh.Thorough() {
+		stride = 97
+	}
+	i := 0
+	for tick := 0; tick <= valgen.MaxTick; tick += stride {
+		i++
+		if !vh.Mine(i) {
+			continue
+		}
+		if !e.Do(valCase{V: valgen.Val{V: rc.V{T: rc.TTime, Tick: uint32(tick)}}}) || !e.Do(valCase{V: valgen.Val{V: rc.V{T: rc.TDateTime, Day: -25000, Tick: uint32(tick)}}}) {
+			return
+		}
+	}
+	if stride == 1 {
+		e.Done("every 1/300 s tick 0..25919999 for TIME and DATETIME against the reference codec")
+	} else {
+		vh.Note("TestEveryTickWire: quick tier samples every %dth tick (%d cases); the thorough tier enumerates all 25920000 ticks", stride, e.Count())
+	}
 }
